@@ -401,3 +401,28 @@ Theorem C18_record_ends_with_completion_showing_the_final_statuses : forall A cf
     ssn A sn = stl A (cands s) /\ as_quota sn = quota s.
 Proof. exact record_ends_with_completion. Qed.
 Print Assumptions C18_record_ends_with_completion_showing_the_final_statuses.
+
+(* ---- "every election or exclusion it lists names a candidate whose status changes at that step": Candidate.elect() and
+   Candidate.defeat(), the only writers of a status, in every state.  They add exactly one action, tagged 'elect' / 'defeat' and
+   named after the candidate ("<message>: <name>"), whose snapshot is the state before with that candidate -- and nobody else --
+   moved to elected (with the given pending flag) / defeated; for an id that names nobody they log nothing and the count crashes.
+   ([ssn] of a snapshot and [stl] of a candidate list: the (id, status, pending) triples.) *)
+Theorem C18_an_election_is_logged_with_its_status_change : forall A cfg i msg p (s : est A),
+  match find_cand A (cands s) i with
+  | Some c => exists sn, actions (elect A cfg i msg p s) = mkAction TElect (msg ++ ": " ++ cname c)%string (round s) (Some sn) :: actions s /\
+                         ssn A sn = stl A (upd_cand A i (fun x => with_st x Elected (Some p)) (cands s)) /\
+                         cands (elect A cfg i msg p s) = upd_cand A i (fun x => with_st x Elected (Some p)) (cands s)
+  | None => actions (elect A cfg i msg p s) = actions s /\ crashed (elect A cfg i msg p s) = true
+  end.
+Proof. exact elect_logs_the_change. Qed.
+Print Assumptions C18_an_election_is_logged_with_its_status_change.
+
+Theorem C18_an_exclusion_is_logged_with_its_status_change : forall A cfg i msg (s : est A),
+  match find_cand A (cands s) i with
+  | Some c => exists sn, actions (defeat A cfg i msg s) = mkAction TDefeat (msg ++ ": " ++ cname c)%string (round s) (Some sn) :: actions s /\
+                         ssn A sn = stl A (upd_cand A i (fun x => with_st x Defeated (cpend x)) (cands s)) /\
+                         cands (defeat A cfg i msg s) = upd_cand A i (fun x => with_st x Defeated (cpend x)) (cands s)
+  | None => actions (defeat A cfg i msg s) = actions s /\ crashed (defeat A cfg i msg s) = true
+  end.
+Proof. exact defeat_logs_the_change. Qed.
+Print Assumptions C18_an_exclusion_is_logged_with_its_status_change.
